@@ -11,12 +11,17 @@ def run(R, tier, seed):
                   "z3 5.1 (deciding), cvc5 / z3 4.8.12 (re-deciding)"]
     R.assumptions += ["strings are sequences of one-byte chars over the stated alphabet (str::chars == bytes)",
                       "is_excluded is decided from MIR for relative paths made of '/'-separated plain names (no '.'/'..' components, no leading '/'): "
-                      "Path::components is modelled only on that domain; parse_remote_meta_output is NOT covered (DESIGN §4 C19)"]
+                      "Path::components is modelled only on that domain",
+                      "parse_remote_meta_output: decided on a symbolic two-record listing (sizes / seconds of 1..2 (quick) or 1..3 (thorough) digits, optional sign and fraction, "
+                      "names of 1..2/3 characters over {a . / TAB NEWLINE -}); std's text routines (slice::split, from_utf8_lossy on ASCII, splitn, split, parse::<u64/i64>, "
+                      "strip_prefix) are contract models validated each run against the native function; non-ASCII names and real `find` output are not covered"]
     from . import planjobs
     steps = ["validate-glob", "needs_transfer", "glob_match", "build_plan", "is_excluded", "is_excluded-2"]
     if tier != "quick":
         steps += ["is_excluded-long"]
     planjobs.run(R, "C19", tier, seed, steps)
+    from . import remotelist
+    remotelist.run(R, tier, seed, "C19")
     # independent re-decision of needs_transfer on the compiled code (Kani, byte-identical copy of plan.rs)
     from . import kanilib
     try:
